@@ -85,6 +85,17 @@ def gen_cases(rng, tier):
         spec["constraints"] = [ocpgen.gen_constraint(rng, spec, cid + 1, grids=["control", "integrator"],
                                                      allow_offsets=False) for cid in range(ncon)]
         spec["objective"] = ocpgen.gen_objective(rng, spec, rng.randint(1, 2))
+        pint = [p for p in spec["params"] if p.get("grid") == "control"]
+        if pint and spec.get("use_next_prev", True) is not None and rng.random() < 0.5:
+            # a per-interval parameter inside a shifted operand: next(p) on interval k is column k+1
+            # (with include_last the final node's own column)
+            p = rng.choice(pint)
+            pl = rng.choice(ocpgen.elems(p["name"], p["shape"]))
+            xl = rng.choice(spec["leaves"]["x"])
+            spec["constraints"].append({
+                "cid": 50, "form": rng.choice(["le", "ge"]), "grid": "control",
+                "lhs": [["-", ["off", ["+", pl, ["*", ["c", ocpgen.rnd(rng, 0.5, 1.5)], xl]], 1], rng.choice(spec["leaves"]["x"])]],
+                "rhs": [["c", ocpgen.rnd(rng, -1, 1)]]})
         events = []
         nev = rng.randint(2, 5) if tier == "quick" else rng.randint(3, 6)
         for _ in range(nev):
